@@ -17,6 +17,22 @@ def run(tier, seed):
         if rng.random() < 0.4:
             r["prequery"] = True        # overhangs / targets queried on the same wrappers before assembling
         recipes.append(r)
+    # calls that are refused (a duplicate, a module that does not match its class, a missing module): the cited inputs read the
+    # same afterwards
+    import copy as _copy
+    from .. import gen as _gen
+    for r in ac.real_family_cases(rng, 1 if q else 4, 3, annotate=True, refs=True):
+        for how in ("dup", "bad", "missing"):
+            r2 = _copy.deepcopy(r)
+            if how == "dup":
+                r2["modules"].append(dict(_copy.deepcopy(r2["modules"][-1]), id="dup"))
+            elif how == "bad":
+                m = r2["modules"][0]
+                m["seq"] = _gen.mutate(m["seq"][:10], rng) + m["seq"][10:][::-1]
+                m["feats"] = [f for f in m.get("feats", []) if max(p_[1] for p_ in f["parts"]) <= len(m["seq"])]
+            elif len(r2["modules"]) > 1:
+                r2["modules"].pop(0)
+            recipes.append(r2)
     traces = ac.validate(run, "cited-assemblies", recipes)
     run.extra["inputs_with_references"] = sum(1 for t in traces for x in [t[0]["vec"]] + t[0]["mods"] if x["refs"])
     run.extra["cited_input_features"] = sum(1 for t in traces for x in [t[0]["vec"]] + t[0]["mods"] for f in x["feats"] if f["cites"])
